@@ -599,6 +599,9 @@ def run(chk):
         thorough(chk)
     from . import witness
     witness.witness_rule(chk, "C05", 5)
+    if not getattr(chk, "_overlay", None):
+        common.linear_types_rule(chk, P, "C05.R8:guards-are-linear", "a span guard cannot be copied (a copy would complete the span a second time)",
+                                 {"emit::span::SpanGuard": "each copy completes on drop: the span would complete twice"})
     return chk
 
 
